@@ -89,6 +89,8 @@ type Analysis struct {
 	queued  map[Node]bool
 	selLoc  []Node // selector id -> join point it belongs to
 	okeys   map[Node][]int
+	cur     Node
+	edges   map[Node]map[Node]bool
 	sites   []*Site
 	siteIdx map[siteKey]*Site
 	effects []*Site
@@ -116,7 +118,7 @@ var nonEffectFuncs = map[string]bool{
 	"runtime.GetAddressVersion": true, "runtime.GetNotifications": true, "runtime.CurrentSigners": true,
 	"storage.Get": true, "storage.Find": true, "storage.GetContext": true, "storage.GetReadOnlyContext": true,
 	"storage.ConvertContextToReadOnly": true,
-	"contract.CreateMultisigAccount": true, "contract.CreateStandardAccount": true, "contract.GetCallFlags": true,
+	"contract.CreateMultisigAccount":   true, "contract.CreateStandardAccount": true, "contract.GetCallFlags": true,
 	"contract.GetStorageItem": true, "contract.SeekStorage": true,
 	"native/roles.GetDesignatedByRole": true,
 	"native/management.GetContract":    true, "native/management.GetContractByID": true, "native/management.HasMethod": true,
@@ -213,6 +215,7 @@ func runPass(w *World, q *Query, tb *TermBuilder, lt *LitTable, effects []*Site,
 		a.work[best] = a.work[len(a.work)-1]
 		a.work = a.work[:len(a.work)-1]
 		a.queued[n] = false
+		a.cur = n
 		a.run(n)
 		if a.steps > 400000 {
 			a.notes = append(a.notes, "fixpoint step budget exhausted")
@@ -266,6 +269,15 @@ type nodeState struct {
 func (a *Analysis) push(n Node, from any, st *CNF) {
 	if st.bottom {
 		return
+	}
+	if a.cur.b != nil {
+		if a.edges == nil {
+			a.edges = map[Node]map[Node]bool{}
+		}
+		if a.edges[a.cur] == nil {
+			a.edges[a.cur] = map[Node]bool{}
+		}
+		a.edges[a.cur][n] = true
 	}
 	ns := a.ns[n]
 	if ns == nil {
@@ -980,4 +992,73 @@ func (a *Analysis) describe(st *CNF, only func(Lit) bool) []string {
 
 func (a *Analysis) stats() string {
 	return fmt.Sprintf("nodes=%d steps=%d maxClauses=%d sites=%d effects=%d exits=%d", a.nodes, a.steps, a.maxCl, len(a.sites), len(a.effects), len(a.exits))
+}
+
+// nodeOf: the graph node whose instruction range contains (ctx, ins).
+func (a *Analysis) nodeOf(ctx *Ctx, ins ssa.Instruction) (Node, bool) {
+	b := ins.Block()
+	i := instrIndex(ins)
+	best := Node{}
+	found := false
+	for n := range a.in {
+		if n.ctx == ctx && n.b == b && n.idx <= i && (!found || n.idx > best.idx) {
+			best, found = n, true
+		}
+	}
+	return best, found
+}
+
+// reachAvoiding: the first site satisfying target that can execute after
+// `from` on a path of the flat graph that does not execute any site in avoid
+// (from itself may be in avoid: then paths around a loop back to it are cut).
+func (a *Analysis) reachAvoiding(from *Site, target func(*Site) bool, avoid []*Site) *Site {
+	av := map[*Site]bool{}
+	for _, s := range avoid {
+		av[s] = true
+	}
+	start, ok := a.nodeOf(from.Ctx, from.Instr)
+	if !ok {
+		return nil
+	}
+	type pos struct {
+		n Node
+		i int
+	}
+	seen := map[Node]bool{}
+	work := []pos{{start, instrIndex(from.Instr) + 1}}
+	for len(work) > 0 {
+		p := work[len(work)-1]
+		work = work[:len(work)-1]
+		stopped := false
+		for i := p.i; i < len(p.n.b.Instrs) && !stopped; i++ {
+			ins := p.n.b.Instrs[i]
+			if ci, ok := ins.(ssa.CallInstruction); ok {
+				if s := a.siteIdx[siteKey{p.n.ctx, ci}]; s != nil {
+					if av[s] {
+						stopped = true
+						break
+					}
+					if target(s) {
+						return s
+					}
+					if s.Inlined {
+						break // control continues in the callee: follow the node's edges
+					}
+				}
+			}
+			if _, ok := ins.(*ssa.Panic); ok {
+				stopped = true
+			}
+		}
+		if stopped {
+			continue
+		}
+		for nx := range a.edges[p.n] {
+			if !seen[nx] {
+				seen[nx] = true
+				work = append(work, pos{nx, nx.idx})
+			}
+		}
+	}
+	return nil
 }
